@@ -19,7 +19,8 @@ from .properties import ( # isort:skip
     flex_grow_shrink, flex_wrap, font_family, font_size, font_stretch, font_style,
     font_variant_caps, font_weight, gap, grid_line, grid_template, line_height,
     list_style_image, list_style_position, list_style_type, mask_border_mode,
-    other_colors, overflow_wrap, text_decoration_thickness, validate_non_shorthand)
+    other_colors, outline_color, overflow_wrap, text_decoration_thickness,
+    validate_non_shorthand)
 
 EXPANDERS = {}
 
@@ -276,8 +277,9 @@ def expand_border_side(tokens, name):
     See https://www.w3.org/TR/CSS21/box.html#propdef-border-top
 
     """
+    color = outline_color if name == 'outline' else other_colors
     for token in tokens:
-        if parse_color(token) is not None:
+        if color([token]) is not None:
             suffix = '-color'
         elif border_width([token]) is not None:
             suffix = '-width'
